@@ -4,7 +4,7 @@
 (*                                                                                *)
 (* hist.ndjson holds recorded cases. A case is a header line                      *)
 (*    {"e":"case", "n":N, "init":[v1..vC], "bank":0|1, "sum":S, ...}              *)
-(* followed by N lines, one per observed item, in any order:                      *)
+(* followed by N lines, one per observed item, by increasing end stamp t:         *)
 (*    {"e":"txn", "a":sharer, "s":start, "t":end, "ops":[{"k":"r"|"w","c":cell,"v":value}..]}  *)
 (*        a COMMITTED critical section of a sharer (a > 0) or an out-of-band       *)
 (*        GetState() observation between sections (a = 0, reads only); s is taken  *)
@@ -15,6 +15,7 @@
 (*        while every other sharer was between sections.                          *)
 (* Nothing about locks appears here: the spec speaks of values read and written.  *)
 (*                                                                                *)
+(* (the items of a case are listed by increasing end stamp t; invariant Sorted checks it)      *)
 (* Lin(i) linearizes item i: allowed iff every item that ended before i started is *)
 (* already linearized (real-time order) and each of i's reads returns the latest   *)
 (* earlier write (its own included). Every step consumes one line, so a case is    *)
@@ -27,10 +28,10 @@ EXTENDS Naturals, Sequences, FiniteSets, TLC, Json
 
 Trace == ndJsonDeserialize("hist.ndjson")
 
-VARIABLES l, base, done, store
-svars == <<l, base, done, store>>
+VARIABLES l, base, done, store, lo
+svars == <<l, base, done, store, lo>>
 
-SInit == l = 1 /\ base = 0 /\ done = {} /\ store = <<>>
+SInit == l = 1 /\ base = 0 /\ done = {} /\ store = <<>> /\ lo = 1
 
 N == IF base = 0 THEN 0 ELSE Trace[base].n
 Item(i) == Trace[base + i]
@@ -38,7 +39,7 @@ Item(i) == Trace[base + i]
 SCase ==
   /\ l <= Len(Trace) /\ Trace[l].e = "case"
   /\ Cardinality(done) = N
-  /\ base' = l /\ done' = {} /\ store' = Trace[l].init /\ l' = l + 1
+  /\ base' = l /\ done' = {} /\ store' = Trace[l].init /\ l' = l + 1 /\ lo' = 1
 
 RECURSIVE Replay(_, _, _)
 Replay(ops, i, st) ==
@@ -47,24 +48,25 @@ Replay(ops, i, st) ==
        THEN IF st[ops[i].c] = ops[i].v THEN Replay(ops, i + 1, st) ELSE [ok |-> FALSE, st |-> st]
        ELSE Replay(ops, i + 1, [st EXCEPT ![ops[i].c] = ops[i].v])
 
-RECURSIVE MinEnd(_, _)
-MinEnd(S, m) == IF S = {} THEN m
-                ELSE LET i == CHOOSE x \in S : TRUE IN
-                     MinEnd(S \ {i}, IF m = 0 \/ Item(i).t < m THEN Item(i).t ELSE m)
+(* The items of a case are listed by increasing end stamp (checked: Sorted), so the item that *)
+(* ended first among those not yet linearized is the first one not in done: lo. Item i may be *)
+(* linearized next iff it started before that item ended.                                    *)
+RECURSIVE NextLo(_, _)
+NextLo(k, d) == IF k > N \/ k \notin d THEN k ELSE NextLo(k + 1, d)
 
 Lin(i) ==
-  /\ i \notin done
   /\ LET r == Replay(Item(i).ops, 1, store) IN
      /\ r.ok
      /\ store' = r.st
   /\ done' = done \cup {i} /\ l' = l + 1 /\ UNCHANGED base
+  /\ lo' = IF i = lo THEN NextLo(lo + 1, done) ELSE lo
 
 SNext ==
   \/ SCase
-  \/ /\ base # 0 /\ Cardinality(done) < N
-     /\ LET und == (1..N) \ done
-            me  == MinEnd(und, 0) IN
-        \E i \in {j \in und : Item(j).s < me} : Lin(i)
+  \/ /\ base # 0 /\ lo <= N
+     /\ \E i \in {j \in lo..N : j \notin done /\ Item(j).s < Item(lo).t} : Lin(i)
+
+Sorted == (base # 0 /\ done = {}) => \A i \in 1..(N - 1) : Item(i).t < Item(i + 1).t
 
 (* ---- progress counted in events, not in time: a probe section attempted while  *)
 (* every other sharer is between sections (so nobody can hold a lock legitimately) *)
